@@ -484,3 +484,22 @@ def bool_return_outcome(view: PathView, val: dict, free: dict, spec: TableSpec):
     if p.exit == "fall":
         return None
     return p.exit
+
+
+# ---------------------------------------------------------------------- CONST: signature defaults
+def signature_defaults(ctx: Ctx, rule: str, table: dict[str, dict[str, str]], why: str) -> None:
+    """Default values of the parameters of anchored functions (a changed default changes every call that omits it)."""
+    for fref, want in table.items():
+        fn = ctx.repo.func(fref)
+        ctx.touch(fref)
+        a = fn.node.args
+        pos = a.posonlyargs + a.args
+        got = {}
+        for arg, d in zip(pos[len(pos) - len(a.defaults):], a.defaults):
+            got[arg.arg] = ast.unparse(d)
+        for arg, d in zip(a.kwonlyargs, a.kw_defaults):
+            if d is not None:
+                got[arg.arg] = ast.unparse(d)
+        bad = {k: got.get(k) for k, v in want.items() if got.get(k) != v}
+        ctx.record(rule, "CONST", fref, "defaults: " + ", ".join(f"{k}={v}" for k, v in want.items()), not bad, {"found": {k: got.get(k) for k in want}},
+                   "" if not bad else f"default value(s) changed: {bad} ({why})")
